@@ -221,6 +221,9 @@ class Emit:
                 dord, tord = self.task_orders(obs, flat(p))
                 ts.append(f"(mkTask {self.path(p)} {self.paths(tord)} {self.paths(dord)} (AExpr {self.expr(e)}))")
             return f"MLoad {clist(ts)} {cbool(op[2])}"
+        if k == "genfun":
+            args = clist([f"({self.path(p)}, Leaf {cz(v)})" for p, v in zip(op[1], op[2])])
+            return f"MGenFun {args} {self.paths(obs.get('sd_order', []))} {self.paths(obs.get('start_order', []))}"
         if k == "arm":
             return f"MArmFault {int(op[1])}%nat"
         return {"freeze": "MFreeze", "unfreeze": "MUnfreeze", "refresh": "MRefresh", "verify": "MVerify",
